@@ -426,7 +426,8 @@ def check(ctx):
              'destdir; DESTDIR variable declared iff supported; make and '
              'ninja share the helpers; installable classes have roots; '
              'install_deps are installed recursively (all as value-flow / '
-             'control-dependence / dominance facts)')
+             'control-dependence / dominance facts); default directories are '
+             'expressed in the GNU directory variable they belong to')
     F = Facts(ctx.repo)
     install_dirs(ctx, F)
     commands(ctx, F)
